@@ -353,6 +353,59 @@ def oracle(ck: Check, tier, deep):
                                    f"(max difference {np.abs(ti.IM - tf.IM).max() if ti.IM.shape == tf.IM.shape else 'shape'})")
         elif ref.shape != tf.IM.shape or np.abs(ref - tf.IM).max() > 1e-12 * 60:
             ck.violation(dict(sig, clause="transform-centres-with-set_center"), rep, "Transform(origin=…).IM is not set_center of the (odd-width) float image")
+    # integer images given to set_center itself: with a fractional origin the interpolation is done on their values (total intensity
+    # preserved exactly for order 1), not rounded back to the integer dtype
+    for _ in range(20 if not deep else 150):
+        r, c = (int(v) for v in rng.integers(7, 16, size=2))
+        dt = [np.int32, np.int64, np.uint16, np.uint8][int(rng.integers(0, 4))]
+        Xi = np.zeros((r, c), dt)
+        Xi[2:r - 2, 2:c - 2] = rng.integers(1, 9, size=(r - 4, c - 4))            # compact support: nothing leaves the frame
+        o = (float(r // 2 + rng.uniform(-0.9, 0.9)), float(c // 2 + rng.uniform(-0.9, 0.9)))
+        crop = ["maintain_size", "valid_region", "maintain_data"][int(rng.integers(0, 3))]
+        order = int(rng.integers(1, 4))
+        ck.count(("S.int-frac", np.dtype(dt).name, crop, order), suite="S.frac")
+        rep = dict(shape=[r, c], dtype=np.dtype(dt).name, origin=list(o), crop=crop, order=order, image=Xi.tolist())
+        sig = dict(site="set_center", kind="fractional", clause="integer-image")
+        try:
+            gi = set_center(Xi, o, crop=crop, order=order)
+            gf = set_center(Xi.astype(np.float64), o, crop=crop, order=order)
+        except Exception as e:
+            ck.violation(dict(sig, clause="exception"), rep, f"{type(e).__name__}: {e}")
+            continue
+        if gi.shape != gf.shape or np.abs(np.asarray(gi, float) - gf).max() > 1e-12 * 9:
+            ck.violation(sig, rep, f"set_center of the {np.dtype(dt).name} image differs from that of its float64 copy by "
+                                   f"{np.abs(np.asarray(gi, float) - gf).max() if gi.shape == gf.shape else 'shape'} (sum {float(np.sum(gi)):.6g} vs {Xi.sum()})")
+    # center_image with an explicit origin: the requested point of the *input* image lands at the centre of the output, whatever
+    # rows / columns the odd_size and square trimming removes, and also when the point is counted from the end
+    for _ in range(150 if not deep else 1500):
+        r, c = (int(v) for v in rng.integers(3, 14, size=2))
+        odd, sq = bool(rng.integers(0, 2)), bool(rng.integers(0, 2))
+        crop = ["maintain_size", "valid_region", "maintain_data"][int(rng.integers(0, 3))]
+        pr, pc = int(rng.integers(0, r)), int(rng.integers(0, c))          # (a point the trimming removes is skipped below)
+        im = np.zeros((r, c))
+        im[pr, pc] = 1.0
+        o = [pr - r if rng.random() < 0.3 else pr, pc - c if rng.random() < 0.3 else pc]
+        ck.count(("S.explicit", r % 2, c % 2, (r > c) - (r < c), odd, sq, crop, o[0] < 0, o[1] < 0), suite="S.flags")
+        rep = dict(shape=[r, c], point=[pr, pc], method=o, odd_size=odd, square=sq, crop=crop)
+        sig = dict(site="center_image", odd_size=odd, square=sq, crop=crop)
+        # (a point in a row / column that the odd_size or square trimming drops is not a request that can be honoured: which pixels
+        # survive is read off a labelled image centred about its own middle, where nothing moves)
+        try:
+            kept = center_image(np.arange(1.0, r * c + 1).reshape(r, c), method="image_center", odd_size=odd, square=sq)
+        except Exception:
+            continue
+        if (pr * c + pc + 1) not in kept:
+            continue
+        try:
+            out = center_image(im, method=tuple(o), odd_size=odd, square=sq, crop=crop)
+        except Exception as e:
+            ck.violation(dict(sig, clause="exception"), rep, f"{type(e).__name__}: {e}")
+            continue
+        where = np.argwhere(out > 0.5).tolist()
+        if where != [[out.shape[0] // 2, out.shape[1] // 2]]:
+            ck.violation(dict(sig, clause="explicit-origin"), rep,
+                         f"the requested point {(pr, pc)} (given as {tuple(o)}) ended up at {where} of the {out.shape} output, centre is "
+                         f"{(out.shape[0] // 2, out.shape[1] // 2)}")
     # … the same claims with every crop option, axes selection and origin method, on images with an off-centre blob
     for _ in range(400 if not deep else 4000):
         r, c = (int(v) for v in rng.integers(6, 18, size=2))
